@@ -428,6 +428,37 @@ class ArrayQuantity(GenericQuantity, np.ndarray):
         if hasattr(arrqty, '_units'):
             self._units = arrqty._units
 
+    # A numpy scalar on the LEFT of an operator (np.float64(2) + a, an element
+    # of a plain array times a) does not try the reflected method of the
+    # quantity: numpy turns the expression into a ufunc call and the units
+    # were lost (metres could be added to a plain number).  Hand exactly
+    # these calls to the operators; every other ufunc call is numpy's.
+    _reflected_operators = {
+        np.add: '__radd__', np.subtract: '__rsub__',
+        np.multiply: '__rmul__', np.true_divide: '__rtruediv__',
+        np.power: '__rpow__', np.less: '__gt__', np.less_equal: '__ge__',
+        np.greater: '__lt__', np.greater_equal: '__le__',
+        np.equal: '__eq__', np.not_equal: '__ne__'}
+
+    def __array_ufunc__(self, ufunc, method, *inputs, **kwargs):
+        name = self._reflected_operators.get(ufunc)
+        if (name is not None and method == '__call__' and not kwargs
+                and len(inputs) == 2 and inputs[1] is self
+                and isinstance(inputs[0], np.generic)):
+            return getattr(self, name)(inputs[0])
+        # as before: numpy works on the magnitudes and returns plain arrays
+        plain = [x.view(np.ndarray) if isinstance(x, ArrayQuantity) else x
+                 for x in inputs]
+        if 'out' in kwargs:
+            kwargs['out'] = tuple(
+                x.view(np.ndarray) if isinstance(x, ArrayQuantity) else x
+                for x in kwargs['out'])
+        result = getattr(ufunc, method)(*plain, **kwargs)
+        if isinstance(result, np.generic):
+            # (a reduction of a subclass instance is a 0-d array)
+            result = np.asarray(result)
+        return result
+
     def __array_wrap__(self, outarr, context=None):
         if not issubclass(outarr.dtype.type, np.number):
             return np.asarray(outarr)
